@@ -44,6 +44,9 @@ func models(run *report.Run) []*explore.Model {
 		{Name: "pppoe", Config: "start=65534 macs=A,B creates<=4", New: func() explore.System { return newPppoeSys(65534, 4) },
 			Depth: pick(6, 9), Exec: bubble, Classify: classify, Budget: 5 * time.Minute},
 	}
+	// low ids 1,2 are created first and may still be alive when the counter (then preset to 65535) wraps
+	ms = append(ms, &explore.Model{Name: "pppoe", Config: "wrap: ids 1,2 first then counter=65535, macs=A,B creates<=5", New: func() explore.System { return newPppoeWrapSys(2, 65535, 5) },
+		Depth: pick(6, 9), Exec: bubble, Classify: classify, Budget: 5 * time.Minute})
 	ms = append(ms, idxModels(pick(5, 8), pick(2, 3))...)
 	return ms
 }
